@@ -64,7 +64,7 @@ SPEC = dict(
     assumptions=[
         "one local host transport per modelled component (the two-agent runs also use two local addresses); STUN servers are modelled for "
         "their acceptance rule only (answers without mapped address / with an already known address used to leave a deleted transaction "
-        "registered: fixed by 314ddf9, both inputs are in the correspondence, the ASan child-process probe stays); no TURN server is run: relayed datagrams are "
+        "registered: fixed by d3fbd07, both inputs are in the correspondence, the ASan child-process probe stays); no TURN server is run: relayed datagrams are "
         "injected at the TURN transport's signal, oracle only",
         "application (non-STUN) datagrams are delivered to the application from ANY source address, before and after a pair is selected, "
         "and sendDatagram before selection writes to the fallback pair (first signalled candidate, or the known candidate that last sent "
@@ -117,7 +117,7 @@ SPEC = dict(
                "credentials, fallback pair, retransmission and time-out. NOT modelled: the TURN allocation (forged datagrams are injected on "
                "its path, oracle only), several local transports, role-conflict resolution (the code implements none: same-role requests are "
                "dropped), behaviour after close() beyond receive/send. Found and fixed on the way: C15:stun-discovery-never-completes / "
-               "C15:stun-discovery-use-after-free (repo commit 314ddf9; triggering inputs in the correspondence, ASan child-process probe kept). "
+               "C15:stun-discovery-use-after-free (repo commit d3fbd07; triggering inputs in the correspondence, ASan child-process probe kept). "
                "The safety half is "
                "full strength since repo commit f41aa68 (before it, integrity-less messages were processed: findings "
                "C15:binding-request-without-mi-processed / C15:binding-response-without-mi-accepted, now under 'fixed'; both oracle keys "
